@@ -354,7 +354,10 @@ GEN_PATH = ("tree.add_path(((param_name, _enumerate_candidates(param_distributio
 GEN_OTHERS = "(t for t in trials if t.number != trial.number)"
 GEN_CURRENT = ("((t if t.number != trial.number else create_trial(state=state, values=values, params=trial.params, "
                "distributions=trial.distributions)) for t in trials)")
-PARAMS_MATCH = "all((p in trial.params and trial.params[p] == v for p, v in params.items()))"
+# since the repair of F38 the comparison is the NaN-aware module-level helper `_param_value_equal` (translated separately into
+# `paramValueEqual`, proved to be the same equality as `_grid_value_equal`: reflexive on NaN); the plain `==` form is no longer a
+# whitelisted shape - a revert makes `_populate_tree` untranslatable
+PARAMS_MATCH = "all((p in trial.params and _param_value_equal(trial.params[p], v) for p, v in params.items()))"
 
 
 class BFCtx(Ctx):
@@ -890,6 +893,20 @@ def translate_bruteforce(repo: str) -> tuple[str, dict[str, Any], list[dict[str,
         info["enumerate"] = None
         etext = "{ arms := [], elseRaises := false }"
         ecomment = "UNTRANSLATABLE: %s" % str(ex).replace("-/", "- /")
+    # _param_value_equal (module level; NaN-aware equality used by _populate_tree's prefix filter)
+    fn = next((n for n in tree.body if isinstance(n, ast.FunctionDef) and n.name == "_param_value_equal"), None)
+    try:
+        if fn is None:
+            raise Untranslatable("_param_value_equal", "not found")
+        v = translate_value_equal(fn)
+        info["methods"]["_param_value_equal"] = 1 + len(v["lets"])
+        vtext = "{ lets := [%s],\n    ret := %s }" % (", ".join("(%s, %s)" % (r(Lit(x)), r(e_)) for x, e_ in v["lets"]), r(v["ret"]))
+        vcomment = "lines %d-%d" % (fn.lineno, fn.end_lineno or fn.lineno)
+    except Untranslatable as ex:
+        problems.append({"what": "_param_value_equal", "why": str(ex)})
+        info["methods"]["_param_value_equal"] = None
+        vtext = '{ lets := [], ret := .var "untranslatable" }'
+        vcomment = "UNTRANSLATABLE: %s" % str(ex).replace("-/", "- /")
     L = ["import OptunaVerif.Model.SamplerIR",
          "/-! GENERATED by verif/translators/tbrute.py from %s on every check run - do not edit. -/" % BF_REL,
          "namespace OptunaVerif.Generated.BruteForceMethods",
@@ -899,6 +916,8 @@ def translate_bruteforce(repo: str) -> tuple[str, dict[str, Any], list[dict[str,
         L.append("def %s : %s :=\n  %s\n" % (lean, ty, text))
     L.append("/-- `_enumerate_candidates` (%s) -/" % ecomment)
     L.append("def enumerateCandidates : EnumIR :=\n  %s\n" % etext)
+    L.append("/-- `_param_value_equal` (%s) -/" % vcomment)
+    L.append("def paramValueEqual : VEqIR :=\n  %s\n" % vtext)
     L.append("/-- the `_TreeNode` methods -/")
     L.append("def treeProg : TreeProg :=\n  { expand := expand, setRunning := setRunning, setLeaf := setLeaf, addPath := addPath,\n"
              "    countUnexpanded := countUnexpanded, sampleChild := sampleChild }\n")
